@@ -23,6 +23,15 @@ class InjectedFault(Exception):
         self.tag = tag
 
 
+class InjectedInterrupt(KeyboardInterrupt):
+    """A Ctrl-C (not an `Exception`) landing inside a request, read, write or callback — what a manager
+    whose tasks run in the caller's thread (NonThreadedExecutor, boto3's use_threads=False) is exposed to."""
+
+    def __init__(self, tag):
+        super().__init__('injected-interrupt:%s' % (tag,))
+        self.tag = tag
+
+
 def retryable_error(kind, tag):
     if kind == 'incomplete':
         e = IncompleteReadError(actual_bytes=0, expected_bytes=1)
@@ -172,6 +181,7 @@ class FakeS3:
         self.meta = _Meta(request_checksum_calculation)
         self.bodies_seen = []
         self.body_log = []
+        self.min_part_size = 0    # EntityTooSmall check at CompleteMultipartUpload (5 MiB at real scale)
         self.clock = None        # optional callable giving a global event stamp
         self.on_event = None     # optional observer(entry)
 
@@ -398,6 +408,14 @@ class FakeS3:
                     blob.append(data)
                 if set(up['parts']) - set(nums):
                     problems.append('uploaded parts %r not listed' % sorted(set(up['parts']) - set(nums)))
+                # the service refuses a part other than the last below its minimum part size (EntityTooSmall)
+                if self.min_part_size:
+                    for p in parts[:-1]:
+                        stored = up['parts'].get(p.get('PartNumber'))
+                        if stored is not None and len(stored[1]) < self.min_part_size:
+                            problems.append('part %r has %d bytes, below the minimum part size %d (EntityTooSmall)'
+                                            % (p.get('PartNumber'), len(stored[1]), self.min_part_size))
+                            break
                 up['complete_problems'] = problems
                 up['state'] = 'completed'
                 self.objects[(up['bucket'], up['key'])] = b''.join(blob)
